@@ -41,7 +41,7 @@ impl SymbolTable {
     #[verifier::external_body]
     pub fn define(&mut self, name: &str) -> (s: Symbol)
         ensures s == sym_define_symbol(*old(self), name@), *final(self) == sym_after_define(*old(self), name@),
-                sym_depth(*final(self)) == sym_depth(*old(self)), sym_contexts(*final(self)) == sym_contexts(*old(self)),
+                sym_depth(*final(self)) == sym_depth(*old(self)), sym_contexts(*final(self)) == sym_contexts(*old(self)), sym_outer(*final(self)) == sym_outer(*old(self)),
                 sym_params(*final(self)) == sym_params(*old(self)).push(name@)
     { unimplemented!() }
 }
@@ -65,17 +65,21 @@ pub uninterp spec fn sym_reset(t: SymbolTable) -> SymbolTable;
 /// function contexts are open. NOT DECIDED for Context internals; the wrappers are unit c09_names.
 pub uninterp spec fn sym_depth(t: SymbolTable) -> int;
 pub uninterp spec fn sym_contexts(t: SymbolTable) -> int;
+/// block-scope depths of the ENCLOSING contexts (outermost first): what leave_context returns to. PROVED-BY unit c09_names:
+/// new_context pushes one context on top and leave_context drops exactly that one, everything below untouched.
+pub uninterp spec fn sym_outer(t: SymbolTable) -> Seq<int>;
 pub uninterp spec fn sym_params(t: SymbolTable) -> Seq<Seq<char>>;   // names declared in the current context since it was opened
 pub uninterp spec fn sym_max_size(t: SymbolTable) -> usize;
 impl SymbolTable {
     #[verifier::external_body]
-    pub fn enter_scope(&mut self) ensures sym_depth(*final(self)) == sym_depth(*old(self)) + 1, sym_contexts(*final(self)) == sym_contexts(*old(self)) { unimplemented!() }
+    pub fn enter_scope(&mut self) ensures sym_depth(*final(self)) == sym_depth(*old(self)) + 1, sym_contexts(*final(self)) == sym_contexts(*old(self)), sym_outer(*final(self)) == sym_outer(*old(self)) { unimplemented!() }
     #[verifier::external_body]
-    pub fn leave_scope(&mut self) ensures sym_depth(*final(self)) == sym_depth(*old(self)) - 1, sym_contexts(*final(self)) == sym_contexts(*old(self)) { unimplemented!() }
+    pub fn leave_scope(&mut self) ensures sym_depth(*final(self)) == sym_depth(*old(self)) - 1, sym_contexts(*final(self)) == sym_contexts(*old(self)), sym_outer(*final(self)) == sym_outer(*old(self)) { unimplemented!() }
     #[verifier::external_body]
-    pub fn new_context(&mut self) ensures sym_contexts(*final(self)) == sym_contexts(*old(self)) + 1, sym_depth(*final(self)) == 0, sym_params(*final(self)) == Seq::<Seq<char>>::empty() { unimplemented!() }
+    pub fn new_context(&mut self) ensures sym_contexts(*final(self)) == sym_contexts(*old(self)) + 1, sym_depth(*final(self)) == 0, sym_params(*final(self)) == Seq::<Seq<char>>::empty(), sym_outer(*final(self)) == sym_outer(*old(self)).push(sym_depth(*old(self))) { unimplemented!() }
     #[verifier::external_body]
-    pub fn leave_context(&mut self) -> (n: usize) ensures sym_contexts(*final(self)) == sym_contexts(*old(self)) - 1, n == sym_max_size(*old(self)) { unimplemented!() }
+    pub fn leave_context(&mut self) -> (n: usize) ensures sym_contexts(*final(self)) == sym_contexts(*old(self)) - 1, n == sym_max_size(*old(self)),
+        sym_outer(*old(self)).len() > 0 ==> sym_depth(*final(self)) == sym_outer(*old(self)).last() && sym_outer(*final(self)) == sym_outer(*old(self)).drop_last() { unimplemented!() }
 }
 impl SymbolTable {
     // NOT DECIDED (src/symbols.rs Context internals): truncates to the global context's outermost scope
@@ -85,6 +89,8 @@ impl SymbolTable {
 pub uninterp spec fn sym_define_symbol(t: SymbolTable, name: Seq<char>) -> Symbol;
 pub uninterp spec fn sym_after_define(t: SymbolTable, name: Seq<char>) -> SymbolTable;
 
+/// `a == b` under Object's PartialEq with equal tags (the test add_constant uses to re-use a slot)
+pub uninterp spec fn pool_equal(a: Object, b: Object) -> bool;
 pub struct LoopContext { pub start: usize, pub break_instructions: Vec<usize> }
 
 /// ghost log of the recursive code-generation calls made so far (which sub-tree, in which order)
@@ -141,7 +147,7 @@ pub open spec fn gen_post(pre: Compiler, post: Compiler, ok: bool) -> bool {
         })
     &&& pre.constants@.len() <= post.constants@.len()
     &&& (forall|i: int| 0 <= i < pre.constants@.len() ==> post.constants@[i] == pre.constants@[i])
-    &&& (ok ==> sym_depth(post.symbols) == sym_depth(pre.symbols) && sym_contexts(post.symbols) == sym_contexts(pre.symbols))
+    &&& (ok ==> sym_depth(post.symbols) == sym_depth(pre.symbols) && sym_contexts(post.symbols) == sym_contexts(pre.symbols) && sym_outer(post.symbols) == sym_outer(pre.symbols))
 }
 
 /// value of the placeholder operand (src/compiler.rs JUMP_PLACEHOLDER); every placeholder is overwritten, so the
@@ -167,8 +173,7 @@ pub open spec fn block_post(pre: Compiler, post: Compiler, stmts: Seq<Stmt>, ok:
             &&& post.log@[k + m - 1].end == post.instructions@.len()
             &&& sym_depth(post.symbols) == sym_depth(pre.symbols) && sym_contexts(post.symbols) == sym_contexts(pre.symbols)
         })
-    &&& is_prefix(pre.instructions@, post.instructions@) && gen_inv(post)
-    &&& (ok ==> post.instructions@.len() > pre.instructions@.len())
+    &&& (ok ==> is_prefix(pre.instructions@, post.instructions@) && gen_inv(post) && post.instructions@.len() > pre.instructions@.len())
 }
 
 pub open spec fn le16(v: int) -> Seq<u8> { seq![(v % 256) as u8, (v / 256) as u8] }
@@ -205,6 +210,8 @@ impl Compiler {
                 (gen_inv(*old(self)) && !(old(self).last_instruction is Some && no_operand_tail(old(self).last_instruction->Some_0))) ==> gen_inv(*final(self)),
     { unimplemented!() }
     // PROVED-BY: O10.1 c10_add_constant (Kani, bounded pool): the returned slot holds the value; earlier slots unchanged
+    // pool_equal: the slot compares equal to the value under Object's own PartialEq (O10.1, O10.1f; what that equality
+    // means per type is C15/C06)
     #[verifier::external_body]
     fn add_constant(&mut self, obj: Object) -> (r: Result<u16, Error>)
         ensures
@@ -214,6 +221,7 @@ impl Compiler {
                 &&& spec_tag(final(self).constants@[idx]) == spec_tag(obj)
                 &&& (spec_tag(obj) == Type::Int ==> spec_int(final(self).constants@[idx]) == spec_int(obj))
                 &&& (spec_tag(obj) == Type::Function ==> final(self).constants@[idx] == obj)
+                &&& pool_equal(final(self).constants@[idx], obj)
             }),
             old(self).constants@.len() <= final(self).constants@.len(),
             forall|i: int| 0 <= i < old(self).constants@.len() ==> final(self).constants@[i] == old(self).constants@[i],
@@ -243,14 +251,14 @@ impl Compiler {
         requires gen_inv(*old(self))
         ensures
             final(self).log@ == old(self).log@.push(entry_e(*expr, *old(self), *final(self))),
-            gen_post(*old(self), *final(self), r is Ok),
+            r is Ok ==> gen_post(*old(self), *final(self), true),
     { unimplemented!() }
     #[verifier::external_body]
     fn compile_statement(&mut self, stmt: &Stmt) -> (r: Result<(), Error>)
         requires gen_inv(*old(self))
         ensures
             final(self).log@ == old(self).log@.push(entry_s(*stmt, *old(self), *final(self))),
-            gen_post(*old(self), *final(self), r is Ok),
+            r is Ok ==> gen_post(*old(self), *final(self), true),
     { unimplemented!() }
     // block_post: PROVED-BY unit c02_blocks (verbatim body). gen_post: induction hypothesis (assumed).
     #[verifier::external_body]
@@ -258,7 +266,7 @@ impl Compiler {
         requires gen_inv(*old(self))
         ensures
             block_post(*old(self), *final(self), stmts@, r is Ok),
-            gen_post(*old(self), *final(self), r is Ok),
+            r is Ok ==> gen_post(*old(self), *final(self), true),
     { unimplemented!() }
 }
 
